@@ -694,7 +694,7 @@ func judgeC18Args(c c18Case) (v core.Verdict) {
 
 func TestC18(t *testing.T) {
 	core.Run(t, "C18",
-		"(a) programs that drive Runtime.Let / Set / SetOrLet / LetGlobal / Resolve / Context / YieldBlock (contexts: strings, nil pointer, nil map, nil slice) through custom functions (also with Execute given no VarMap, SetOrLet on names that are only globals / built-ins, a yielded block with a defaulted parameter), interleaved with template-level := and = and nested (depth<=4) in if / range (both context modes) / block (with context) / include (with context); round 10: Runtime.YieldBlock on an imported block with a parameter that has no default; a reflect.Value bound through Let; oracle = the syntax twin (API statements replaced by the syntax they mirror) rendered by the engine, and the MiniJet reference interpreter with API mirror functions; (b) Arguments.Get / NumOfArguments / ParseInto (into *interface{} targets, and numbers - literals, variables, direct results of interface{}-returning functions - into *int / *float64 / *int64 / *reflect.Value) versus a reflected variadic function for plain, piped and slot-placed argument shapes, IsSet on defined / undefined / nil identifiers, an argument that counts its evaluations; non-trivial = an API call at depth>=2, YieldBlock with a context, SetOrLet, or a piped/slot shape",
+		"(a) programs that drive Runtime.Let / Set / SetOrLet / LetGlobal / Resolve / Context / YieldBlock (contexts: strings, nil pointer, nil map, nil slice) through custom functions (also with Execute given no VarMap, SetOrLet on names that are only globals / built-ins, a yielded block with a defaulted parameter), interleaved with template-level := and = and nested (depth<=4) in if / range (both context modes) / block (with context) / include (with context); round 10: Runtime.YieldBlock on an imported block with a parameter that has no default; a reflect.Value bound through Let; round 11: Runtime.Let as the first thing in the else branch of a declaring range over nothing; oracle = the syntax twin (API statements replaced by the syntax they mirror) rendered by the engine, and the MiniJet reference interpreter with API mirror functions; (b) Arguments.Get / NumOfArguments / ParseInto (into *interface{} targets, and numbers - literals, variables, direct results of interface{}-returning functions - into *int / *float64 / *int64 / *reflect.Value) versus a reflected variadic function for plain, piped and slot-placed argument shapes, IsSet on defined / undefined / nil identifiers, an argument that counts its evaluations; non-trivial = an API call at depth>=2, YieldBlock with a context, SetOrLet, or a piped/slot shape",
 		genC18, judgeC18)
 }
 
